@@ -28,7 +28,7 @@ RULE = (
 ASSUMPTIONS = ["a non-eval sync replaces the whole parameter/attribute, name included (pinned by the repository's own tests)",
                "names unique per scope except deliberate re-binding; function bodies hold no named definitions"]
 CORE_ALLOWED = ()
-FRONTIER_KNOBS = ("kwarg_out", "valued_input", "cross_kind", "bad_address", "out_fn_has_defaults", "module_doc", "repeated_input_wrap", "valued_same_name")
+FRONTIER_KNOBS = ("kwarg_out", "valued_input", "cross_kind", "bad_address", "out_fn_has_defaults", "module_doc", "repeated_input_wrap", "valued_same_name", "stale_location")
 FLOORS = {"pairs>=2": 0.05, "wrap": 0.1, "eval": 0.02}
 WRAPS = (None, None, "Optional[{output_param}]", "Optional[Union[{output_param}, str]]")
 
@@ -125,6 +125,8 @@ def _case(draw, knob):
                      "kwonly": [], "kwarg": None, "ret": "return zz"}]})
             return {"input": inp, "output": out, "pairs": [[[nm], o[0]]], "wrap": wrap, "eval": False, "cli": draw(st.booleans())}
     n = draw(st.integers(1, 3))
+    if knob == "stale_location":
+        n = 3
     pairs, used_out, new_names = [], set(), set()
     for _ in range(n):
         i = draw(st.sampled_from(ins))
@@ -146,6 +148,8 @@ def _case(draw, knob):
                 o = draw(st.sampled_from(m2))
         if knob == "repeated_input_wrap" and pairs:
             i = (pairs[0][0], None)
+        if knob != "stale_location" and any(tuple(p_[0]) == tuple(o[0]) for p_ in pairs):
+            continue  # an earlier pair's INPUT path equal to this pair's OUTPUT path: finding KF-Y07
         key = (tuple(o[0][:-1]), o[0][-1] if ev else i[0][-1])
         if key in new_names:
             continue  # two pairs must not give two nodes of one scope the same (input) name
@@ -234,6 +238,8 @@ def run_case(case):
         tags.add("pairs>=2")
     if len({tuple(i) for i, _ in pairs}) < len(pairs):
         tags.add("repeated_input")
+    if any(tuple(pairs[a][0]) == tuple(pairs[b][1]) for a in range(len(pairs)) for b in range(a + 1, len(pairs))):
+        tags.add("stale_location")
     resolvable = True
     for i, o in pairs:
         inode, ik = progs.model_resolve(itree, i)
